@@ -766,7 +766,14 @@ fn step(world: &mut World, act: &Value, kernel_access: &mut BTreeSet<u64>) -> Ve
     let exp_subm = canon_entries(&act["subm"]);
     let obs_subm: Vec<Value> = subm.iter().map(|e| json!({"t": e["t"], "o": e["o"]})).collect();
     if name != "RingPoll" && name != "KPost" && name != "DropRing" && obs_subm != exp_subm {
-        let tag = if name == "DropRes" {
+        let reissue = name == "Poll"
+            && exp_subm.is_empty()
+            && subm.iter().any(|e| e["t"].as_str().is_some_and(|t| t.starts_with("op")) && e["o"].as_u64().is_some_and(|o| world.first_sqe.contains_key(&o)));
+        let tag = if reissue {
+            // The operation was issued again although the specification does not
+            // restart it here.
+            "C09"
+        } else if name == "DropRes" {
             "C07"
         } else if name == "Drop" || obs_subm.iter().chain(exp_subm.iter()).any(|e| e["t"].as_str().is_some_and(|t| t.starts_with("cancel"))) {
             "C06"
@@ -1058,8 +1065,8 @@ fn main() {
         progress.set(pi as u64, path.len() as u64);
         let op_states: BTreeSet<u64> = world.addr.values().copied().collect();
         let created: Vec<(usize, usize)> = world.created.values().copied().collect();
-        let (leaks, incidents, _notes, teardown_panic) = world.finish();
         let mut records = Vec::new();
+        let diverged_in_path = first.is_some();
         if let Some((si, divs)) = first {
             for d in divs {
                 if d.tag == "early" {
@@ -1068,7 +1075,23 @@ fn main() {
                 records.push(json!({"path": pi, "step": si, "tag": d.tag, "field": d.field,
                     "expected": d.expected, "observed": d.observed, "act": acts[path[si]]}));
             }
-        } else {
+            // Write them out before tearing down: the teardown of a world that has
+            // already diverged may crash or hang.
+            for r in &records {
+                let mut r = r.clone();
+                r["examined"] = json!(examined);
+                r["path_len"] = json!(path.len());
+                r["path_acts"] = json!(path.iter().map(|a| acts[*a].clone()).collect::<Vec<_>>());
+                writeln!(out, "{r}").unwrap();
+            }
+            let _ = out.flush();
+            if !records.is_empty() {
+                diverged += 1;
+            }
+            records.clear();
+        }
+        let (leaks, incidents, _notes, teardown_panic) = world.finish();
+        if !diverged_in_path {
             // Only judge the end state of paths that conformed all the way.
             if let Some(m) = teardown_panic {
                 records.push(json!({"path": pi, "step": path.len(), "tag": "C12", "field": "teardown: panic / mappings / ring descriptor", "expected": null, "observed": m}));
@@ -1081,7 +1104,7 @@ fn main() {
                 records.push(json!({"path": pi, "step": path.len(), "tag": tag, "field": what, "expected": null, "observed": format!("{inc:?}")}));
             }
             if !leaks.is_empty() {
-                // State of an operation never reclaimed: C06; anything else: C12.
+                // State or resources of an operation never reclaimed: C06; anything else: C12.
                 let tag = if leaks.iter().any(|l| op_states.contains(&(l.0 as u64)) || created.iter().any(|(a, b)| l.2 > *a && l.2 <= *b)) { "C06" } else { "C12" };
                 records.push(json!({"path": pi, "step": path.len(), "tag": tag, "field": "allocations never released",
                     "expected": [], "observed": leaks.iter().map(|l| json!({"size": l.1, "serial": l.2})).collect::<Vec<_>>()}));
